@@ -14,7 +14,13 @@ type WKTOpts struct {
 	Axis      bool // trailing AXIS clauses
 	// Sep: white space written after every comma: "" (the compact one-line form), " " or "\n    " (pretty-printed)
 	Sep string
+	// Degree: how the angular unit's factor is written in the GEOGCS ("" = 0.017453292519943295; writers differ in the
+	// number of digits: 0.0174532925199433, 0.01745329251994328, 0.0174532925199, 0.01745329252, 0.0174533)
+	Degree string
 }
+
+// DegreeSpellings are the ways of writing pi/180 met in WKT files.
+var DegreeSpellings = []string{"", "0.0174532925199433", "0.01745329251994328", "0.0174532925199", "0.01745329252", "0.0174533"}
 
 var wktProjName = map[string]string{"merc": "Mercator_1SP", "lcc": "Lambert_Conformal_Conic_2SP", "aea": "Albers_Conic_Equal_Area",
 	"eqdc": "Equidistant_Conic", "tmerc": "Transverse_Mercator"}
@@ -95,8 +101,12 @@ func (d Def) wkt(o WKTOpts, variant int) string {
 		}
 		return ""
 	}
-	geog := fmt.Sprintf("GEOGCS[\"GCS_Generated\",DATUM[\"%s\",SPHEROID[\"%s\",%s,%s%s]%s%s],PRIMEM[\"Greenwich\",0%s],UNIT[\"Degree\",0.017453292519943295%s]%s]",
-		dname, sname, f(a), rfText, auth("7030"), tow, auth("6326"), auth("8901"), auth("9122"), auth("4326"))
+	deg := o.Degree
+	if deg == "" {
+		deg = "0.017453292519943295"
+	}
+	geog := fmt.Sprintf("GEOGCS[\"GCS_Generated\",DATUM[\"%s\",SPHEROID[\"%s\",%s,%s%s]%s%s],PRIMEM[\"Greenwich\",0%s],UNIT[\"Degree\",%s%s]%s]",
+		dname, sname, f(a), rfText, auth("7030"), tow, auth("6326"), auth("8901"), deg, auth("9122"), auth("4326"))
 	if d.Proj == "longlat" {
 		return geog
 	}
